@@ -153,16 +153,8 @@ theorem C18_all_or_nothing_multi_fails :
   have := h {} [] witness15b .unserialisable (by decide) (by decide) (by decide)
   exact absurd this (by decide)
 
-/-- the forced hypothesis, as an explicit decidable predicate on the inputs: the step that fails is no later
-    than the FIRST `open(…, "w")` of the run -/
-def failsByFirstOpen (env : Env) (fs : FS) (i : Input) : Bool :=
-  !i.formatOk || !pathFc env i.path || refuses i.overwrite fs i.path ||
-  (if i.multifile then
-     !i.validateOk ||
-     (match i.subs with
-      | s :: _ => subFailsClean env i.overwrite fs s
-      | [] => (match i.dump with | .fail _ => true | .text _ => !i.wr.openOk))
-   else (match i.dump with | .fail _ => true | .text _ => !i.wr.openOk))
+/- the forced hypothesis is the explicit decidable predicate `Jap.Save.failsByFirstOpen` (Lemmas/Save.lean):
+   the step that fails is no later than the FIRST `open(…, "w")` of the run -/
 
 /-- C18_all_or_nothing_multi_partial (both modes): a failure at or before the first write leaves the file
     system unchanged — in particular an invalid configuration (validation precedes `save_paths`), a refusal
@@ -285,38 +277,17 @@ theorem C18_success_writes_target (env : Env) (fs : FS) (i : Input) (h : (save e
           simp only [hd] at h ⊢
           exact ⟨s, rfl, by rw [writeFile_ok _ _ _ _ h]; exact get_put_same _ _ _⟩
 
-/-- the loop of `save_paths`: on success every sub-file holds its serialised text, provided the sub-file
-    names are pairwise distinct -/
-theorem saveSubs_ok_get (env : Env) (ow : Bool) (subs : List Sub) (fs : FS)
-    (h : (saveSubs env ow fs subs).1 = .ok ()) (hnd : (subs.map (·.path)).Nodup) :
-    ∀ s ∈ subs, ∃ t, s.text = .text t ∧ (saveSubs env ow fs subs).2.get s.path = some t := by
-  induction subs generalizing fs with
-  | nil => intro s hs; cases hs
-  | cons s rest ih =>
-    have hnd' : (rest.map (·.path)).Nodup := (List.nodup_cons.mp hnd).2
-    have hnot : s.path ∉ rest.map (·.path) := (List.nodup_cons.mp hnd).1
-    unfold saveSubs at h ⊢
-    dsimp only at h ⊢
-    cases hstep : (subStep env ow fs s).1 with
-    | error e => simp [hstep] at h
-    | ok u =>
-      cases u
-      simp only [hstep] at h ⊢
-      obtain ⟨t, ht, hfs⟩ := subStep_ok env ow fs s hstep
-      intro s' hs'
-      rcases List.mem_cons.mp hs' with rfl | hin
-      · refine ⟨t, ht, ?_⟩
-        rw [saveSubs_frame env ow rest _ _ (fun r hr heq => hnot (List.mem_map.mpr ⟨r, hr, heq.symm⟩))]
-        rw [hfs]; exact get_put_same _ _ _
-      · exact ih _ h hnd' s' hin
-
-/-- C18_success_writes (sub-files): after a successful multi-file save every sub-file holds exactly its
-    serialised text — provided no two written files share a name (sub-files are written under their
-    BASENAME next to the target; see the collision witness below) -/
+/-- C18_success_writes (sub-files): after a successful multi-file save every sub-config file holds exactly its
+    serialised text, and every `save_path_content` file holds the content its source had before the save —
+    provided no two written files share a name (sub-files are written under their BASENAME next to the target;
+    see the collision witnesses below) -/
 theorem C18_success_writes_subs (env : Env) (fs : FS) (i : Input) (hm : i.multifile = true)
     (h : (save env fs i).1 = .ok ()) (hnd : (i.subs.map (·.path)).Nodup)
     (hmain : i.path ∉ i.subs.map (·.path)) :
-    ∀ s ∈ i.subs, ∃ t, s.text = .text t ∧ (save env fs i).2.get s.path = some t := by
+    ∀ s ∈ i.subs,
+      (s.kind = .cfg → ∃ t, s.text = .text t ∧ (save env fs i).2.get s.path = some t) ∧
+      (s.kind = .content → (∀ r ∈ i.subs, s.src ≠ r.path) →
+        ∃ t, fs.get s.src = some t ∧ (save env fs i).2.get s.path = some t) := by
   unfold save at *
   split at h
   · simp at h
@@ -340,10 +311,10 @@ theorem C18_success_writes_subs (env : Env) (fs : FS) (i : Input) (hm : i.multif
       | text txt =>
         simp only [hd] at h ⊢
         intro s hs
-        obtain ⟨t, ht, hg⟩ := saveSubs_ok_get env i.overwrite i.subs fs hsub hnd s hs
-        refine ⟨t, ht, ?_⟩
         have hne : s.path ≠ i.path := fun heq => hmain (List.mem_map.mpr ⟨s, hs, heq⟩)
-        rw [writeFile_frame _ _ _ _ _ hne]; exact hg
+        have hg := saveSubs_ok_get env i.overwrite i.subs fs hsub hnd s hs
+        rw [writeFile_frame _ _ _ _ _ hne]
+        exact hg
 
 /-- the distinctness hypothesis is forced: two sub-configs loaded from `a/x.yaml` and `b/x.yaml` are both
     written to `x.yaml`; the save succeeds and the first sub-config's text is gone -/
@@ -351,6 +322,65 @@ theorem C18_success_writes_subs_needs_distinct :
     let i : Input := { path := "main.yaml", overwrite := true, dump := .text "m",
                        subs := [{ path := "x.yaml", text := .text "x: 5\n" }, { path := "x.yaml", text := .text "y: 6\n" }] }
     (save {} [] i).1 = .ok () ∧ (save {} [] i).2.get "x.yaml" = some "y: 6\n" := by decide
+
+/-- a `save_path_content` file whose source lies in the target directory is copied onto itself: the
+    destination is opened (truncated) before the source is read, the save SUCCEEDS and the content is gone -/
+theorem C18_path_content_self_copy_empties :
+    let i : Input := { path := "main.yaml", overwrite := true, dump := .text "pth: file.txt\n",
+                       subs := [{ path := "file.txt", kind := .content, src := "file.txt" }] }
+    (save {} [("file.txt", "precious content")] i).1 = .ok () ∧
+    (save {} [("file.txt", "precious content")] i).2.get "file.txt" = some "" := by decide
+
+/-- whatever happens in multi-file mode, a failing save (other than the OS failing in the middle of the final
+    write) does not touch the target itself — what the open finding leaves behind are sub-files only -/
+theorem C18_failure_target_untouched (env : Env) (fs : FS) (i : Input) (e : Err)
+    (h : (save env fs i).1 = .error e) (hio : e ≠ .io ∨ i.wr.writeOk = true)
+    (hmain : ∀ s ∈ i.subs, i.path ≠ s.path) : (save env fs i).2.get i.path = fs.get i.path := by
+  unfold save at *
+  split
+  · rfl
+  split
+  · rfl
+  split
+  · rfl
+  rename_i h1 h2 h3
+  simp only [h1, h2, h3, Bool.false_eq_true, ↓reduceIte] at h ⊢
+  have hwf : ∀ (fs' : FS) (s : String), (writeFile fs' i.path s i.wr).1 = .error e →
+      (writeFile fs' i.path s i.wr).2 = fs' := by
+    intro fs' s hw
+    unfold writeFile at *
+    split
+    · rfl
+    · rename_i ho
+      simp only [ho, Bool.false_eq_true, ↓reduceIte] at hw ⊢
+      split
+      · rename_i hwr
+        simp only [hwr, ↓reduceIte] at hw
+        rcases hio with hio | hio
+        · exact absurd (by simpa using hw.symm) hio
+        · simp [hio] at hwr
+      · rename_i hwr
+        simp [hwr] at hw
+  split
+  · rename_i hm
+    simp only [hm, ↓reduceIte] at h
+    cases hd : i.dump with
+    | fail e' => rfl
+    | text s => simp only [hd] at h ⊢; rw [hwf fs s h]
+  · rename_i hm
+    simp only [hm, Bool.false_eq_true, ↓reduceIte] at h
+    split
+    · rfl
+    · rename_i hv
+      simp only [hv, Bool.false_eq_true, ↓reduceIte] at h
+      have hk := saveSubs_frame env i.overwrite i.subs fs i.path hmain
+      split
+      · exact hk
+      · rename_i u hu
+        simp only [hu] at h
+        cases hd : i.dump with
+        | fail e' => exact hk
+        | text s => simp only [hd] at h ⊢; rw [hwf _ s h]; exact hk
 
 /-! ## non-vacuity -/
 
@@ -395,7 +425,8 @@ example :
 /-- a `save_path_content` sub-file is opened before its content is read: a failing read leaves it empty -/
 example :
     let i : Input := { path := "main.yaml", overwrite := true, dump := .text "m",
-                       subs := [{ path := "file.txt", kind := .content, text := .fail .os }] }
-    save {} [("file.txt", "content")] i = (.error .os, [("file.txt", "")]) := by decide
+                       subs := [{ path := "file.txt", kind := .content, src := "elsewhere/file.txt", readOk := false }] }
+    save {} [("file.txt", "content"), ("elsewhere/file.txt", "new")] i
+      = (.error .os, [("file.txt", ""), ("elsewhere/file.txt", "new")]) := by decide
 
 end Jap.Props.C18
